@@ -161,6 +161,9 @@ func validateInputTypeCompatibility(
 	inputs []Type,
 	handler reflect.Value,
 ) error {
+	if handler.Kind() != reflect.Func {
+		return fmt.Errorf("handler must be a function, %s given", handler.Kind())
+	}
 	// Validate the input types match the provided ones.
 	specifiedParams := len(inputs)
 	actualParams := handler.Type().NumIn()
